@@ -15,7 +15,7 @@ type c01 struct{ base }
 
 func init() {
 	runner.Register(&c01{base{id: "C01", level: "exploration",
-		rule: "exhaustive: every sequence of <=4 (thorough <=5) ops over 2 keys x 8 op templates {put full, put small, update SET, update REMOVE, update ADD, delete, delete ALL_OLD, get}, hash-only and hash+range schemas, both adapters; seeded: histories of 40-80 ops over 3-6 hostile keys, key types rotating over S/S, N/S, S/N, B/B, N/N (string parts incl. numeral-looking strings, number parts re-written in other notations of the same value). After EVERY step the complete observable state (GetItem of every key used so far, base Scan as a set, DescribeTable.ItemCount) is compared with the model map. non-trivial = history contains an overwrite, a delete-then-re-put or an update-created item and touches >=2 keys; distinct by (schema, adapter, op-kind sequence, key-index sequence).",
+		rule: "exhaustive: every sequence of <=4 (thorough <=5) ops over 2 near-colliding keys (blocks of 64 sequences rotate through a.b|c / a|b.c, a\\|.b / a.|b and the confusable pairs of mon.ConfusablePairs) x 8 op templates {put full, put small, update SET, update REMOVE, update ADD, delete, delete ALL_OLD, get}, hash-only and hash+range schemas, both adapters; seeded: histories of 40-80 ops over 3-6 hostile keys, key types rotating over S/S, N/S, S/N, B/B, N/N (string parts incl. numeral-looking strings, number parts re-written in other notations of the same value). After EVERY step the complete observable state (GetItem of every key used so far, base Scan as a set, DescribeTable.ItemCount) is compared with the model map. non-trivial = history contains an overwrite, a delete-then-re-put or an update-created item and touches >=2 keys; distinct by (schema, adapter, op-kind sequence, key-index sequence).",
 		assumptions: commonAssumptions}})
 }
 
@@ -148,6 +148,14 @@ func (p *c01) RunCase(ctx *runner.Ctx) runner.CaseResult {
 		if block%2 == 1 {
 			k0 = mon.KeyFor(spec, "a\\", ".b")
 			k1 = mon.KeyFor(spec, "a.", "b")
+		}
+		if block%4 >= 2 {
+			// the remaining blocks walk through the pairs that collide under a plausible-but-wrong key encoding
+			cp := mon.ConfusablePairs()
+			pr := cp[(block/4)%len(cp)]
+			if spec.Range != "" || pr[0][0] != pr[1][0] {
+				k0, k1 = mon.KeyFor(spec, pr[0][0], pr[0][1]), mon.KeyFor(spec, pr[1][0], pr[1][1])
+			}
 		}
 		total := c01ExhaustiveCount(tier)
 		for seq := block * c01Block; seq < (block+1)*c01Block && seq < total; seq++ {
